@@ -134,6 +134,12 @@ pub struct Sim<'a> {
     l_sum: f64,
     k: u64,
     deadline: Option<u64>,
+    // C01, by contract: a second model of the phase progression that runs at HALF the configured speed and follows the
+    // accepted gate events; once even this slow model has arrived in Sustain (or AtRest after a release) the envelope
+    // must, whatever its own state variable says, sit exactly on the sustain level (or on 0.0)
+    slow_state: State,
+    slow_sum: f64,
+    slow_released: bool,
     // levels latched at gate events (observed through value())
     v_on: f32,
     v_off: f32,
@@ -169,6 +175,9 @@ impl<'a> Sim<'a> {
             l_sum: 0.0,
             k: 0,
             deadline: None,
+            slow_state: State::AtRest,
+            slow_sum: 0.0,
+            slow_released: false,
             v_on: 0.0,
             v_off: 0.0,
             last_v: 0.0,
@@ -247,6 +256,9 @@ impl<'a> Sim<'a> {
         }
         // observed levels (used by C01/C03, keyed on the real state so that these oracles do not depend on C02)
         if real_before != State::Attack {
+            self.slow_state = State::Attack;
+            self.slow_sum = 0.0;
+            self.slow_released = false;
             self.v_on = v;
             if timed(real_before) {
                 self.gate_in_timed_phase += 1;
@@ -273,6 +285,8 @@ impl<'a> Sim<'a> {
             self.restart_sums();
         }
         if matches!(real_before, State::Attack | State::Decay | State::Sustain) {
+            self.slow_state = State::Release;
+            self.slow_sum = 0.0;
             self.v_off = v;
             if timed(real_before) {
                 self.gate_in_timed_phase += 1;
@@ -345,6 +359,18 @@ impl<'a> Sim<'a> {
             self.k += 1;
             if self.deadline.is_none() && self.l_sum >= 1.0 {
                 self.deadline = Some(self.k + 1);
+            }
+        }
+
+        if timed(self.slow_state) {
+            let a = 1.0 / self.n_of(self.slow_state);
+            self.slow_sum += 0.5 * (a - Q24).max(0.0);
+            if self.slow_sum >= 1.0 {
+                if self.slow_state == State::Release {
+                    self.slow_released = true;
+                }
+                self.slow_state = succ(self.slow_state);
+                self.slow_sum = 0.0;
             }
         }
 
@@ -446,6 +472,22 @@ impl<'a> Sim<'a> {
                     }
                 }
                 _ => {}
+            }
+            // by contract (independent of the envelope's own state variable)
+            if self.slow_state == State::Sustain && v != s_now {
+                return Err(self.fail(
+                    "C01.sustain_level_by_contract",
+                    format!(
+                        "gate held, attack and decay times have passed twice over, sustain level {}: value {} (envelope reports {:?})",
+                        s_now, v, st_after
+                    ),
+                ));
+            }
+            if self.slow_state == State::AtRest && self.slow_released && v != 0.0 {
+                return Err(self.fail(
+                    "C01.rest_level_by_contract",
+                    format!("gate released, the release time has passed twice over: value {} (envelope reports {:?})", v, st_after),
+                ));
             }
             if st_before == State::Decay && v < s_now {
                 return Err(self.fail(
